@@ -29,6 +29,7 @@ type world struct {
 	rows    int // 2 for BGV (2 x N/2 matrix), 1 for CKKS
 	rowLen  int // rotation period: N/2 (bgv, ckks standard full), N (ckks conjugate invariant), 2^logSlots (sparse)
 	hasConj bool
+	gap     int // ciphertext ring degree / plaintext ring degree (BGV), 1 otherwise
 
 	build func(seed uint64)
 	built bool
@@ -104,9 +105,17 @@ func ckksWorld(cf cklib.Cfg) *world {
 // ---------------------------------------------------------------------------------------------
 // BGV worlds
 
-func bgvWorld(logN, np int, t uint64) *world {
-	w := &world{name: fmt.Sprintf("bgv/logN%d-P%d-t%d", logN, np, t), scheme: "bgv", rt: ring.Standard, logN: logN, np: np,
-		rows: 2, rowLen: 1 << (logN - 1), hasConj: true, t: t}
+// bgvWorld: t fixes the plaintext ring: its degree is the largest power of two n <= N with t = 1 mod 2n, so
+// t=17 at LogN=4/5 gives a plaintext ring smaller than the ciphertext ring (gap 2 / 4). pow2 is the base-2
+// decomposition of the evaluation keys (0 = default keys).
+func bgvWorld(logN, np int, t uint64, pow2 int) *world {
+	nT := 1 << logN
+	for (t-1)%uint64(2*nT) != 0 {
+		nT >>= 1
+	}
+	w := &world{name: fmt.Sprintf("bgv/logN%d-P%d-t%d-w%d", logN, np, t, pow2), scheme: "bgv", rt: ring.Standard, logN: logN, np: np,
+		rows: 2, rowLen: nT / 2, hasConj: true, t: t}
+	w.gap = (1 << logN) / nT
 	w.build = func(seed uint64) {
 		sampling.VerifSeed(engine.Hash(seed, "c11.bgv", w.name))
 		lit := bgv.ParametersLiteral{LogN: logN, Q: uni.Primes(logN, 45, 3), PlaintextModulus: t}
@@ -120,10 +129,12 @@ func bgvWorld(logN, np int, t uint64) *world {
 		w.bp = p
 		w.rp = p.Parameters
 		w.sk = rlwe.NewKeyGenerator(p).GenSecretKeyNew()
-		if np == 0 {
-			// without auxiliary modulus the evaluation keys need a base-2 decomposition (as for CKKS)
-			p2 := 16
+		if pow2 > 0 {
+			p2 := pow2
 			w.evp = []rlwe.EvaluationKeyParameters{{BaseTwoDecomposition: &p2}}
+		}
+		if p.MaxSlots() != 2*w.rowLen {
+			panic("harness: plaintext ring degree mismatch")
 		}
 		w.bec = bgv.NewEncoder(p)
 		w.listInnerSum = p.GaloisElementsForInnerSum
